@@ -81,6 +81,19 @@ theorem render_head_ne (e1 e2 : String → Bytes) (x y : UInt8) (p1 p2 : Bytes) 
   injection h' with h3 _
   exact hxy h3
 
+theorem envOf_store (r : Req) : envOf r "storeID" = r.store := by
+  unfold envOf
+  rw [if_pos rfl]
+
+theorem envOf_model (r : Req) : envOf r "modelID" = r.model := by
+  unfold envOf
+  rw [if_neg (by decide), if_pos rfl]
+
+theorem req_ext (r1 r2 : Req) (hs : r1.store = r2.store) (hm : r1.model = r2.model) : r1 = r2 := by
+  cases r1; cases r2
+  simp only [Req.mk.injEq]
+  exact ⟨hs, hm⟩
+
 /-! ### flights -/
 
 section
